@@ -889,14 +889,20 @@ class Translator:
         ats = []
         if selfptr is not None:
             ats.append('const void *')
+        al = [selfptr] if selfptr is not None else []
         for a in args:
             at = self.tm.tname(a['type'])
-            if at not in SCALAR_C:
-                self.abort(n, 'opaque getter %s with non-scalar argument' % q)
-            ats.append(at)
+            if at in SCALAR_C:
+                ats.append(at)
+                al.append(self.e(a))
+            elif a.get('valueCategory') == 'lvalue':
+                # an object passed by reference: its identity (address) is the argument of the pure function
+                ats.append('const void *')
+                al.append(self.addr(a, self.e(a)))
+            else:
+                self.abort(n, 'opaque getter %s with non-scalar temporary argument' % q)
         self.opaque_decls[cn] = (rt, ats, q)
         self.cur.stubs.add(cn)
-        al = ([selfptr] if selfptr is not None else []) + [self.e(a) for a in args]
         return '%s(%s)' % (cn, ', '.join(al))
 
     # ================================================================== statements
